@@ -26,9 +26,8 @@ Full statement / proved / missing
                          are the format strings the float path derives from it with `unParse` (`WithoutWidth`,
                          `ReplaceFormatChar`): `GoOK` = every format string handed to fmt is a directive fmt understands.
 * `C20_total`          — total by construction, and no Go fault/`%!` marker is reachable: the result is `text` or
-                         `reported`; for per-type format maps of any depth `C20_total_map`.  Full statement
-                         `C20_total_full` (without fmt's number limit) is FALSE: `C20_total_fails_number_limit`
-                         (known finding C20-fmt-number-limit, `%10000010d`).
+                         `reported`, for EVERY directive `parseFormat` accepts (it rejects numbers beyond fmt's limit:
+                         fixed finding C20-fmt-number-limit); for per-type format maps of any depth `C20_total_map`.
 * `C20_reported`       — a scalar raises only the unsupported-format error, or the documented failure of `%s` on a
                          Binary that is not UTF-8.
 * `C20_unsupported_iff`— scalars: reported unsupported ⇔ letter ∉ documented set of the value's kind, the documented
@@ -61,8 +60,8 @@ Full statement / proved / missing
 namespace Pcore.Format
 open Pcore.Generated
 
-/-- `d` is a syntactically valid directive with Format record `f`, its numbers within fmt's limit -/
-def Directive (d : Str) (f : Fmt) : Prop := newFormat d = .ok f ∧ NumOK f
+/-- `d` is a syntactically valid directive with Format record `f` -/
+def Directive (d : Str) (f : Fmt) : Prop := newFormat d = .ok f
 
 /-- the directive as printf reads it -/
 def printfView (f : Fmt) : Option GoSpec := goParse (goFormat f)
@@ -77,7 +76,7 @@ theorem C20_letters : LettersOK formatLetters := lettersOKb_sound formatLetters 
 /-! ## the grammar -/
 
 theorem C20_directive_go (d : Str) (f : Fmt) (h : Directive d f) : GoOK f :=
-  parseFormat_goOK d none none f h.1 h.2
+  parseFormat_goOK d none none f h
 
 instance (d : Str) (f : Fmt) : Decidable (Directive d f) := by unfold Directive; infer_instance
 
@@ -122,20 +121,13 @@ theorem C20_total_map (io : FloatIO) (m : FMap) (v : Val) (h : AllGoOK m) :
 theorem C20_total (io : FloatIO) (d : Str) (f : Fmt) (v : Val) (h : Directive d f) :
     (∃ s, formatDirective io d v = .text s) ∨ (∃ c, formatDirective io d v = .reported c) := by
   unfold formatDirective
-  rw [h.1]
+  rw [h]
   exact C20_total_map io _ v (allGoOK_single f (C20_directive_go d f h) .any)
 
-/-- the full statement, without fmt's limit on the numbers of a directive -/
-def C20_total_full : Prop := ∀ (io : FloatIO) (d : Str) (f : Fmt) (v : Val), newFormat d = .ok f →
-  (∃ s, formatDirective io d v = .text s) ∨ (∃ c, formatDirective io d v = .reported c)
-
-/-- known finding C20-fmt-number-limit: `%10000010d` is a valid directive, fmt answers `%!(NOVERB)` -/
-theorem C20_total_fails_number_limit : ¬ C20_total_full := by
-  intro h
-  have hf : formatDirective io0 "%10000010d".toList (.int 5) = .fault .goFmtNoVerb := by decide +kernel
-  rcases h io0 "%10000010d".toList (parsed "%10000010d") (.int 5) (by decide +kernel) with ⟨s, hs⟩ | ⟨c, hc⟩
-  · rw [hf] at hs; cases hs
-  · rw [hf] at hc; cases hc
+/-- a width or precision beyond what fmt accepts is not a directive (fixed finding C20-fmt-number-limit: such a
+    directive used to pass the pattern and fmt answered `%!(NOVERB)`) -/
+example : newFormat "%10000010d".toList = .error .invalidSpec ∧ newFormat "%.1000001s".toList = .error .invalidSpec ∧
+    (newFormat "%1000000d".toList).toOption.isSome = true := by decide +kernel
 
 example : formatDirective io0 "%<5d".toList (.int 5) = .text "    5".toList := by decide +kernel
 example : formatDirective io0 "%d".toList (.array [.int 1]) = .reported .unsupported := by decide +kernel
@@ -242,7 +234,7 @@ theorem C20_int_ref_partial (io : FloatIO) (d : Str) (f : Fmt) (i : Int) (g : Go
   obtain ⟨g', hg', hgv, _⟩ := hgo
   unfold printfView at hg
   rw [hg] at hg'; cases hg'
-  rw [formatDirective_int io d f i h.1 (not_float_of_radix _ (radix_of_int _ hl))]
+  rw [formatDirective_int io d f i h (not_float_of_radix _ (radix_of_int _ hl))]
   unfold fmtIntCore
   rw [if_pos hl, hg]
   obtain ⟨b, u, hvb⟩ := verbBase_of_int g.verb (by rw [hgv]; exact hl)
@@ -289,7 +281,7 @@ theorem C20_radix_back (io : FloatIO) (d : Str) (f : Fmt) (i : Int) (h : Directi
     (hl : isRadixLetter f.letter = true) (hne : ¬ (i = 0 ∧ f.prec = some 0 ∧ isIntLetter f.letter = true)) :
     ∃ s, formatDirective io d (.int i) = .text s ∧ readRadix f.letter s = some i := by
   obtain ⟨g, hg, hgv, _, hgp, _⟩ := (C20_directive_go d f h).spec
-  rw [formatDirective_int io d f i h.1 (not_float_of_radix _ hl)]
+  rw [formatDirective_int io d f i h (not_float_of_radix _ hl)]
   by_cases hi : isIntLetter f.letter = true
   · obtain ⟨b, u, hvb⟩ := verbBase_of_int g.verb (by rw [hgv]; exact hi)
     refine ⟨goInteger g b u i, formatDirective_eq_fmtIntCore_text f i g hi hg b u hvb, ?_⟩
@@ -299,7 +291,8 @@ theorem C20_radix_back (io : FloatIO) (d : Str) (f : Fmt) (i : Int) (h : Directi
       simp only [isRadixLetter, isIntLetter, Bool.or_eq_true, decide_eq_true_eq] at hl hi
       tauto
     have hp : isPbB f.letter = true := by rcases hb with h' | h' <;> rw [h'] <;> decide
-    refine ⟨intPbB f i, ?_, intPbB_radix_back f i hb⟩
+    have hplus : PlusOK f := (parseFormat_wf d none none f h (parseFormat_numOK d none none f h)).plus
+    refine ⟨intPbB f i, ?_, intPbB_radix_back f i hb hplus⟩
     unfold fmtIntCore
     rw [if_neg hi, if_pos hp]
 
@@ -328,7 +321,8 @@ theorem C20_ctor_back_fails : ¬ C20_ctor_back_full := by
   rw [h1] at hs; cases hs
   revert hn; decide +kernel
 
-example : newInteger "0b101".toList 2 = .reported .notInteger ∧ newInteger "008".toList 10 = .reported .illegalArguments ∧
+example : newInteger "0b101".toList 2 = .int 5 ∧ newInteger "008".toList 10 = .int 8 ∧ newInteger "-0xff".toList 16 = .int (-255) ∧
+    newInteger "- 5".toList 10 = .int (-5) ∧ newInteger "0xff".toList 10 = .reported .notInteger ∧
     newInteger "ff".toList 16 = .reported .illegalArguments ∧ newInteger "-0377".toList 8 = .int (-255) ∧
     newInteger "101".toList 2 = .int 5 ∧ newInteger "-9223372036854775808".toList 10 = .int (-9223372036854775808) ∧
     newInteger "9223372036854775808".toList 10 = .reported .notInteger := by decide +kernel
@@ -340,7 +334,7 @@ theorem C20_width (io : FloatIO) (d : Str) (f : Fmt) (v : Val) (w : Nat) (s : St
     (hv : v.isContainer = false) (hw : f.width = some w)
     (hfl : isFloatLetter f.letter = false ∨ v.kind = .str ∨ v.kind = .bin ∨ v.kind = .dflt ∨ v.kind = .undef ∨ v.kind = .regexp)
     (hs : formatDirective io d v = .text s) : w ≤ s.length := by
-  rw [fmtVal_single io f v d h.1] at hs
+  rw [fmtVal_single io f v d h] at hs
   have hg : ∀ k, getFormat [(Key.any, FTree.mk f none)] k = .mk f none := by intro k; simp [getFormat, Key.accepts]
   exact fmtVal_width io _ Ind.default v hv w (by rw [hg]; exact hw) (by rw [hg]; exact C20_directive_go d f h)
     (by rw [hg]; exact hfl) s hs
@@ -356,12 +350,13 @@ theorem C20_pad_side_text (f : Fmt) (s : Str) (q : Bool) :
       if f.left then strCore f s q ++ spaces (f.width.getD 0 - (strCore f s q).length)
       else spaces (f.width.getD 0 - (strCore f s q).length) ++ strCore f s q := applyStringFlags_pad f s q
 
-/-- **padding side, `p b B` of integers** -/
-theorem C20_pad_side_pbB (f : Fmt) (i : Int) :
+/-- **padding side, `p b B` of integers** (the `0` flag not in effect; with it the zeros stand between sign/prefix
+    and digits: `C20_bin_ref`) -/
+theorem C20_pad_side_pbB (f : Fmt) (i : Int) (hz : pbbZeroFlag f = false) :
     intPbB f i =
       if f.left then intPbB { f with width := none } i ++ spaces (f.width.getD 0 - (intPbB { f with width := none } i).length)
       else spaces (f.width.getD 0 - (intPbB { f with width := none } i).length) ++ intPbB { f with width := none } i :=
-  intPbB_pad f i
+  intPbB_pad f i hz
 
 /-- **padding side, `d x X o`**: unless the `0` flag is in effect (no `-`, no precision) the rendering is the one
     without a width with blanks on the left, or on the right with `-`; with the `0` flag in effect the zeros stand
